@@ -2,7 +2,8 @@
 """collect_seed.py <id> <name> <caught-by text> : copy a confirmed seeded change from the sub-agent's worktree into /verif/seeded/<name>/"""
 import json, os, shutil, sys
 sid, name, caught = sys.argv[1], sys.argv[2], sys.argv[3]
-src = f"/tmp/seed/{sid}/OUT"
+SEED_ROOT = os.environ.get("SEED_ROOT", "/tmp/seed")
+src = f"{SEED_ROOT}/{sid}/OUT"
 dst = f"/verif/seeded/{name}"
 os.makedirs(dst, exist_ok=True)
 shutil.copy(os.path.join(src, "patch.diff"), os.path.join(dst, "patch.diff"))
@@ -10,7 +11,7 @@ if os.path.isdir(os.path.join(dst, "demo")):
     shutil.rmtree(os.path.join(dst, "demo"))
 shutil.copytree(os.path.join(src, "demo"), os.path.join(dst, "demo"))
 meta = json.load(open(os.path.join(src, "meta.json")))
-ver = json.load(open(f"/tmp/seed/verify_{sid}.json")) if os.path.exists(f"/tmp/seed/verify_{sid}.json") else {}
+ver = json.load(open(f"{SEED_ROOT}/verify_{sid}.json")) if os.path.exists(f"{SEED_ROOT}/verify_{sid}.json") else {}
 out = {
     "property": meta.get("property", sid),
     "origin": "fresh sub-agent given only the property text and a scratch worktree of /repo",
